@@ -168,7 +168,10 @@ func Inject(t *rapid.T, p *Program, class string) (*Program, *Fault) {
 	case "bad-option-value":
 		type ov struct{ n, v string }
 		x := rapid.SampledFrom([]ov{{"StringPrefixLenType", "i16"}, {"ArrayPrefixLenType", "f32"}, {"StringPrefixLenType", "string"}, {"ArrayPrefixLenType", "16"},
-			{"LittleEndian", "\"yes\""}, {"LittleEndian", "1"}, {"FixedStringPadFromLeft", "u8"}, {"FixedStringPadChar", "\"x\""}, {"FixedStringPadChar", "true"}}).Draw(t, "bv")
+			{"LittleEndian", "\"yes\""}, {"LittleEndian", "1"},
+			// the diagnostic lists u8,u16,u32,u64 as the legal prefix types: the long spellings
+			// that are aliases for FIELD types are not option values
+			{"StringPrefixLenType", "uint8"}, {"ArrayPrefixLenType", "uint32"}, {"StringPrefixLenType", "uint16"}, {"ArrayPrefixLenType", "uint64"}, {"ArrayPrefixLenType", "int8"}, {"FixedStringPadFromLeft", "u8"}, {"FixedStringPadChar", "\"x\""}, {"FixedStringPadChar", "true"}}).Draw(t, "bv")
 		// the option must not already be set (that would be a duplicate as well)
 		clearOpt(&q.Opts, x.n)
 		q.Opts.Extra = append(q.Opts.Extra, ExtraOpt{Name: x.n, Val: x.v, Mark: FaultMark})
